@@ -584,3 +584,63 @@ def k_lunar_month_days(eng):
 
     r = run_kernel(eng, "13.d/B/lunar-month-days", "13.d", "every month identity, day count 29..30; listing loop unrolled 33 times with the bound proved", build, None, replay)
     return _finish(r, holder["ctx"]) if "ctx" in holder else r
+
+
+def k_lunar_hour_order(eng, which):
+    """LunarHour::is_before / is_after = chronological order of (lunar day, hour, minute, second); lunar days ordered per 02.a"""
+    holder = {}
+
+    class DayO:
+        def __init__(self, t):
+            self.t = t
+
+    def build(eng):
+        fields = struct_fields(os.path.join(REPO, "src/tyme/lunar.rs"), "LunarHour")
+        fn = M.find_fn(eng.fns, which, "&LunarHour", 2)
+        ctx = _ctx(eng, {})
+        holder.update(ctx=ctx)
+        a_rec, b_rec = Rec(ctx, "self", "LunarHour"), Rec(ctx, "target", "LunarHour")
+        dA, dB = ctx.fresh_value("day_of_self", "isize"), ctx.fresh_value("day_of_target", "isize")
+        a_rec.fields[fields.index("day")] = DayO(dA)
+        b_rec.fields[fields.index("day")] = DayO(dB)
+        hms = {}
+        for nm, r in (("a", a_rec), ("b", b_rec)):
+            hms[nm] = [r.field(fields.index(f), "usize") for f in ("hour", "minute", "second")]
+        model = ctx.model
+        base = model.call
+
+        def call(c, fr, callee, args, path):
+            a = [model.deref(c, x) for x in args]
+            if callee == "LunarHour::get_lunar_day" and a[0] in (a_rec, b_rec):
+                return True, DayO(dA if a[0] is a_rec else dB)
+            for k, f in enumerate(("get_hour", "get_minute", "get_second")):
+                if callee == "LunarHour::" + f and a[0] in (a_rec, b_rec):
+                    return True, hms["a" if a[0] is a_rec else "b"][k]
+            if len(a) == 2 and isinstance(a[0], DayO) and isinstance(a[1], DayO):
+                x, y = a[0].t.s, a[1].t.s
+                r = {"<LunarDay as PartialEq>::ne": "(not (= %s %s))", "<LunarDay as PartialEq>::eq": "(= %s %s)", "LunarDay::is_before": "(< %s %s)", "LunarDay::is_after": "(> %s %s)"}.get(callee)
+                if r:
+                    return True, T(r % (x, y), "Bool")          # 02.a: lunar before/after = chronological order; equality = same day
+            return base(c, fr, callee, args, path)
+        model.call = call
+        paths = ctx.run(fn, [("refrec", a_rec), b_rec])
+        pre = []
+        for nm in ("a", "b"):
+            h, mi, s = hms[nm]
+            pre += ["(<= 0 %s 23)" % h.s, "(<= 0 %s 59)" % mi.s, "(<= 0 %s 59)" % s.s]
+        pre += ["(<= 0 %s 4000000)" % dA.s, "(<= 0 %s 4000000)" % dB.s]
+        inst = lambda d, v: "(+ (* 86400 %s) (* 3600 %s) (* 60 %s) %s)" % (d.s, v[0].s, v[1].s, v[2].s)
+        rel = "<" if which == "is_before" else ">"
+
+        def shape(p):
+            return None if isinstance(p.ret, T) and p.ret.sort == "Bool" else "result is not a Bool"
+        return ctx, paths, pre, (lambda p: [("chronological", "(= %s (%s %s %s))" % (p.ret.s, rel, inst(dA, hms["a"]), inst(dB, hms["b"])))]), shape
+
+    def replay(eng, model):
+        nat = eng.native("lunar_hour_order_scan")
+        if nat in ("NONE", "PANIC", "UNKNOWN", ""):
+            return nat == "PANIC", "native scan: " + (nat or "no output")
+        return True, "lunar hours out of chronological order: " + nat
+
+    r = run_kernel(eng, "02.e/B/lunar-hour-%s" % which.replace("_", "-"), "02.e", "every pair of lunar hours (any two days, all clock fields)", build, None, replay)
+    return _finish(r, holder["ctx"]) if "ctx" in holder else r
